@@ -9,11 +9,12 @@ from pycoin.coins.bgold.Tx import Tx as BtgTx
 from pycoin.coins.litecoin import LTCTx
 from pycoin.coins.groestlcoin.Tx import Tx as GrsTx      # constructible without groestlcoin_hash (only the sighash needs it)
 from pycoin.coins.exceptions import ValidationFailureError
-from c07 import mk_tx, a_tx, a_txin, spec_ser, cs, d2j, j2d, blob, tx_tuple, U32, U64
+from c07 import (mk_tx, a_tx, a_txin, spec_ser, cs, d2j, j2d, blob, tx_tuple, U32, U64, hist_impl, hist_line, op_token, apply_op,
+                 fresh_like, g_mutators, ops2j, j2ops, exn_tag, mk_presented, PRESENTATIONS)
 
 PROP = "C20"
 DRIVER = "C20"
-RULE = ("correspondence: one driver line per call of Tx.check (per coin class, or with explicit MAX_MONEY/MAX_TX_SIZE on a subclass), "
+RULE = ("correspondence: one driver line per call of Tx.check or per HISTORY (check, mutate, check again on one object) (per coin class, or with explicit MAX_MONEY/MAX_TX_SIZE on a subclass), "
         "its four helpers, is_coinbase, bad_solution_count; distinct = distinct line; non-trivial = the model returns (check accepted "
         "or a value) rather than raising")
 PARTIAL = ["frame condition (check does not modify the transaction): the Gallina model is a pure function, so in Coq the statement is "
@@ -218,6 +219,12 @@ def base_cases(rng, tier):
                 res.append(((1, ins, [(1, b"")], 0), []))
     res.append(((1, [txin(ZERO, U32, b"ab"), txin(ZERO, U32, b"cd")], [(1, b"")], 0), []))        # two null inputs
     res.append(((1, [txin(ZERO, U32, b"ab")] * 2, [(1, b"")], 0), [(0, 1)]))
+    # outpoints that differ but collide under Python's hash() (the `refs` set must compare by equality): ints congruent modulo
+    # 2^61-1, and -1 / -2; they do not fit the wire width, so after the input check the size test raises struct.error
+    M = (1 << 61) - 1
+    for (a, b) in [(-1, -2), (1, 1 + M), (0, M), (5, 5 + 2 * M)]:
+        res.append(((1, [txin(H(1), a), txin(H(1), b)], [(1, b"")], 0), []))
+        res.append(((1, [txin(H(1), a), txin(H(2), b), txin(H(1), a)], [(1, b"")], 0), []))
     # unserialisable fields with and without a defect
     for bad in [(-1, [ok_in], [(1, b"")], 0), (1, [ok_in], [(1, b"")], U32 + 1), (1, [txin(H(1), -1)], [(1, b"")], 0),
                 (1, [txin(H(1), 1, b"", U32 + 1)], [(1, b"")], 0), (U32 + 1, [ok_in], [], 0), (1, [txin(H(1), -1), txin(H(1), -1)], [(1, b"")], 0),
@@ -280,6 +287,167 @@ def small_limit_cases(rng, n):
 
 
 # ------------------------------------------------------------------------------------------------
+# ------------------------------------------------------------------------------------------------
+# histories of one object: check, mutate, check again (Model/TxObject.v)
+def verdict(t):
+    try:
+        t.check()
+        return "returns"
+    except ValidationFailureError:
+        return "validation"
+    except struct_error:
+        return "struct"
+    except Exception as e:
+        return "other:" + type(e).__name__
+
+
+def expected_verdicts(de, max_money, max_size):
+    """the set of verdicts the property allows for a transaction with these CURRENT fields"""
+    if defects(de, max_money):
+        return {"validation"}
+    if not serialisable(de):
+        return {"struct"}
+    if any(len(h) != 32 for (h, _, _, _, _) in de[1]):
+        return {"returns", "validation"}
+    total, stripped = len(spec_ser(de)), len(spec_ser(de, False))
+    if total <= max_size:
+        return {"returns"}
+    if stripped > max_size:
+        return {"validation"}
+    return {"returns", "validation"}
+
+
+def chk_check_history(d, us, ops, coin, mm=None, ms=None):
+    """one object: after construction and after every operation, check() on the long-lived object must (a) agree with check()
+    on a freshly built object with the same current fields, (b) be the verdict the property gives for the current fields,
+    (c) leave the object unchanged; also as_bin / is_coinbase are compared with the fresh object"""
+    cls = COINS[coin] if mm is None else limit_class(mm, ms)
+    max_money = EXPECTED_MAX_MONEY[coin] if mm is None else mm
+    max_size = EXPECTED_MAX_TX_SIZE if ms is None else ms
+    t = mk_tx(d, cls)
+    t.unspents = [None if u is None else cls.TxOut(u[0], u[1]) for u in us]
+    for n, op in enumerate([None] + list(ops)):
+        if op is not None:
+            try:
+                apply_op(t, op)
+            except Exception:
+                pass
+        before = snapshot(t)
+        v = verdict(t)
+        if snapshot(t) != before:
+            return {"kind": "check-modified-transaction", "after_op": n}
+        fresh = fresh_like(t)
+        vf = verdict(fresh)
+        lab = None if op is None else op_token(op)[:80]
+        if v != vf:
+            return {"kind": "history-dependent-check", "after_op": n, "op": lab, "live": v, "fresh": vf, "size": len(spec_ser(tx_tuple(t))) if serialisable(tx_tuple(t)) else None}
+        exp = expected_verdicts(tx_tuple(t), max_money, max_size)
+        if v not in exp:
+            return {"kind": "check-verdict-not-of-current-fields", "after_op": n, "op": lab, "verdict": v, "expected": sorted(exp)}
+        for ob in (("ob", (False, False, True)), ("oc",), ("on",)):
+            a, b = _obs2(t, ob), _obs2(fresh, ob)
+            if a != b:
+                return {"kind": "history-dependent-observation", "after_op": n, "op": lab, "observer": op_token(ob)}
+    return None
+
+
+def chk_presentation_check(d, kind, coin="BTC"):
+    """the verdict does not depend on how the field values are presented (bytearray / memoryview / int subclass / bool / tuple ...);
+    the only other outcome allowed is a refusal with TypeError / AssertionError (e.g. an unhashable bytearray outpoint hash)"""
+    cls = COINS[coin]
+    ref = verdict(mk_tx(d, cls))
+    try:
+        t = mk_presented(d, kind, cls)
+    except (AssertionError, TypeError):
+        return None
+    v = verdict(t)
+    if v == ref or v in ("other:TypeError", "other:AssertionError"):
+        return None
+    return {"kind": "presentation-dependent-verdict", "presentation": kind, "plain": ref, "presented": v}
+
+
+def chk_bool_index_duplicate():
+    """True == 1: an input spending (h, True) and one spending (h, 1) spend the same outpoint"""
+    t = Tx(1, [TxIn(H(1), True), TxIn(H(1), 1)], [TxOut(1, b"")])
+    v = verdict(t)
+    return None if v == "validation" else {"kind": "duplicate-outpoint-accepted", "presentation": "bool index", "verdict": v}
+
+
+def _obs2(t, op):
+    try:
+        return ("ok", apply_op(t, op))
+    except Exception as e:
+        return ("raise", exn_tag(e))
+
+
+def size_histories(rng, tier):
+    """(d, us, ops, mm, ms): histories that cross MAX_TX_SIZE (a small one on a subclass) in both directions, and the other rules"""
+    res = []
+    mm = 2100000000000000
+    for wit in ([], [b"\x30" * 20]):
+        d = (1, [(H(1), 0, b"", U32, list(wit)), (H(2), 1, b"\x51", U32, [])], [(5000, b"\x51")], 0)
+        tot, strip = len(spec_ser(d)), len(spec_ser(d, False))
+        for ms in sorted({tot, tot + 1, tot + 10, strip + 10, tot + 60}):
+            grow = ms - tot + 1
+            ops_list = [
+                [("ck", mm, ms), ("as", 0, b"\x00" * max(grow, 1)), ("ck", mm, ms), ("as", 0, b""), ("ck", mm, ms)],
+                [("as", 0, b"\x00" * max(grow, 1)), ("ck", mm, ms), ("as", 0, b"\x00" * max(grow - 1, 0)), ("ck", mm, ms)],
+                [("ck", mm, ms), ("ck", mm, ms), ("po", (1, b"\x51" * max(grow, 1))), ("ck", mm, ms), ("xo",), ("ck", mm, ms)],
+                [("ck", mm, ms), ("pi", (H(3), 2, b"\x00" * max(grow, 1), 0, [])), ("ck", mm, ms), ("xi",), ("ck", mm, ms)],
+                [("ck", mm, ms), ("aw", 1, [b"\x01" * max(grow, 1)]), ("ck", mm, ms), ("mw", 1, []), ("ck", mm, ms)],
+                [("ob", (False, False, True)), ("ck", mm, ms), ("os", 0, b"\x51" * (max(grow, 1) + 1)), ("ob", (False, False, True)), ("ck", mm, ms)],
+            ]
+            for ops in ops_list:
+                res.append((d, [], ops, mm, ms))
+    # the other rules, entered and left by mutation after a first check
+    d = (1, [(H(1), 0, b"", U32, []), (H(2), 1, b"\x51", U32, [])], [(5000, b"\x51"), (7, b"")], 0)
+    big = 10**6
+    for ops in [
+        [("ck", mm, big), ("ov", 0, mm + 1), ("ck", mm, big), ("ov", 0, mm), ("ck", mm, big), ("ov", 1, 1), ("ck", mm, big), ("ov", 1, 0), ("ck", mm, big)],
+        [("ck", mm, big), ("ov", 1, -1), ("ck", mm, big), ("ov", 1, 0), ("ck", mm, big)],
+        [("ck", mm, big), ("ah", 1, H(1)), ("ck", mm, big), ("ai", 1, 0), ("ck", mm, big), ("ai", 1, 1), ("ck", mm, big)],
+        [("ck", mm, big), ("ah", 0, ZERO), ("ai", 0, U32), ("ck", mm, big), ("xi",), ("ck", mm, big), ("as", 0, b"\x51"), ("ck", mm, big),
+         ("as", 0, b"\x51" * 2), ("ck", mm, big), ("as", 0, b"\x51" * 101), ("ck", mm, big), ("as", 0, b"\x51" * 100), ("ck", mm, big)],
+        [("ck", mm, big), ("co",), ("ck", mm, big), ("po", (1, b"")), ("ck", mm, big), ("ci",), ("ck", mm, big), ("pi", (H(5), 0, b"", 0, [])), ("ck", mm, big)],
+        [("ck", mm, big), ("av", -1), ("ck", mm, big), ("av", 2), ("ck", mm, big), ("al", U32 + 1), ("ck", mm, big), ("al", 0), ("ck", mm, big)],
+        [("oc",), ("ck", mm, big), ("xi",), ("ah", 0, ZERO), ("ai", 0, U32), ("oc",), ("ck", mm, big), ("pi", (ZERO, U32, b"", 0, [])), ("oc",), ("ck", mm, big)],
+    ]:
+        res.append((d, [], ops, mm, big))
+    # random histories with checks in between
+    for _ in range(120 if tier == "quick" else 5000):
+        dd, same = g_random(rng)
+        dd = eff(dd, same)
+        if not serialisable(dd) or any(len(h) != 32 for (h, _, _, _, _) in dd[1]):
+            continue
+        tot = len(spec_ser(dd))
+        ms = rng.choice([tot - 1, tot, tot + 1, tot + 30, 10**6])
+        lim = rng.choice([mm, 10**6])
+        ops = [("ck", lim, ms)]
+        for _ in range(rng.randint(1, 5)):
+            ops.append(rng.choice(g_mutators(rng, dd)))
+            if rng.random() < 0.7:
+                ops.append(("ck", lim, ms))
+        ops.append(("ck", lim, ms))
+        res.append((dd, [], ops, lim, ms))
+    return res
+
+
+def real_size_histories():
+    """the real classes at the real limit: few (each serialisation is 1 MB)"""
+    base = (1, [(H(1), 0, b"", U32, []), (H(2), 1, b"", U32, [])], [(5000, b"\x51")], 0)
+    n0 = len(spec_ser(base))
+    fit = 1000000 - n0 - 4
+    assert len(spec_ser((1, [(H(1), 0, b"\x00" * fit, U32, []), base[1][1]], base[2], 0))) == 1000000
+    return [
+        (base, [], [("ck", None, None), ("as", 0, b"\x00" * (fit + 1)), ("ck", None, None), ("as", 0, b"\x00" * fit), ("ck", None, None)], "BTC"),
+        (base, [], [("as", 0, b"\x00" * (fit + 1)), ("ck", None, None), ("as", 0, b""), ("ck", None, None), ("po", (1, b"\x51" * 1000000)), ("ck", None, None)], "GRS"),
+    ]
+
+
+def _hj(d, us, ops, coin, mm, ms):
+    return {"tx": d2j(d), "us": [None if u is None else [u[0], u[1].hex()] for u in us], "ops": ops2j(ops), "coin": coin, "mm": mm, "ms": ms}
+
+
 def _check_impl(d, same, cls):
     return build(d, cls, same).check()
 
@@ -329,6 +497,9 @@ def model_cases(rng, tier):
                    (lambda d=d, same=same, mm=mm, ms=ms: call(_check_impl, d, same, limit_class(mm, ms))))
     for (d, same) in size_cases():
         yield Case("check %s %s %s" % (arg(b"BTC"), arg([0]), a_tx(d)), (lambda d=d: call(_check_impl, d, [], Tx)))
+    # histories: check, mutate, check again on one object (ck ops carry the limits of the subclass the object is built from)
+    for (d, us, ops, mm, ms) in size_histories(rng, tier):
+        yield Case(hist_line("dsha256", d, us, ops), (lambda d=d, us=us, ops=ops, mm=mm, ms=ms: hist_impl(d, us, ops, limit_class(mm, ms))))
 
 
 def _pj(d, same, coin, mm=None, ms=None):
@@ -346,6 +517,25 @@ def prop_cases(rng, tier):
         yield PropCase("check", _pj(d, same, "LIM", mm, ms), (lambda d=d, same=same, mm=mm, ms=ms: chk_check(d, same, "LIM", mm, ms)))
     for (d, same) in size_cases():
         yield PropCase("check", _pj(d, same, "BTC"), (lambda d=d: chk_check(d, [], "BTC")))
+    for (d, us, ops, mm, ms) in size_histories(rng, tier):
+        yield PropCase("check_history", _hj(d, us, ops, "LIM", mm, ms), (lambda d=d, us=us, ops=ops, mm=mm, ms=ms: chk_check_history(d, us, ops, "LIM", mm, ms)))
+    for (d, us, ops, coin) in real_size_histories():
+        ops = [o if o[0] != "ck" else ("ck", EXPECTED_MAX_MONEY[coin], EXPECTED_MAX_TX_SIZE) for o in ops]
+        yield PropCase("check_history", _hj(d, us, ops, coin, None, None), (lambda d=d, us=us, ops=ops, coin=coin: chk_check_history(d, us, ops, coin)))
+    pres = base_cases(rng, tier)[::7]
+    for k, (d, same) in enumerate(pres):
+        de = eff(d, same)
+        if not serialisable(de):
+            continue
+        for kind in (PRESENTATIONS if k % 6 == 0 else [PRESENTATIONS[k % len(PRESENTATIONS)]]):
+            coin = list(COINS)[k % len(COINS)]
+            yield PropCase("presentation", {"tx": d2j(de), "kind": kind, "coin": coin}, (lambda de=de, kind=kind, coin=coin: chk_presentation_check(de, kind, coin)))
+    yield PropCase("bool_index", {}, chk_bool_index_duplicate)
+    # every mutator once, on every coin class, with a check before and after
+    for k, coin in enumerate(COINS):
+        d = (1, [(H(1), 0, b"", U32, []), (H(2), 1, b"\x51", U32, [b"w"])], [(5000, b"\x51"), (EXPECTED_MAX_MONEY[coin] - 5000, b"")], 0)
+        for m in g_mutators(rng, d):
+            yield PropCase("check_history", _hj(d, [], [m], coin, None, None), (lambda d=d, m=m, coin=coin: chk_check_history(d, [], [m], coin)))
 
 
 def replay_input(check, inp):
@@ -353,6 +543,13 @@ def replay_input(check, inp):
         return chk_check(j2d(inp["tx"]), [tuple(p) for p in inp["same"]], inp["coin"], inp.get("mm"), inp.get("ms"))
     if check == "coinbase_count":
         return chk_coinbase_count(j2d(inp))
+    if check == "presentation":
+        return chk_presentation_check(j2d(inp["tx"]), inp["kind"], inp.get("coin", "BTC"))
+    if check == "bool_index":
+        return chk_bool_index_duplicate()
+    if check == "check_history":
+        us = [None if u is None else (u[0], bytes.fromhex(u[1])) for u in inp.get("us", [])]
+        return chk_check_history(j2d(inp["tx"]), us, j2ops(inp["ops"]), inp["coin"], inp.get("mm"), inp.get("ms"))
     return {"kind": "unknown-check"}
 
 
@@ -369,9 +566,16 @@ def search(rng, tier, disagreements, known_ids):
     for dis in disagreements[:80]:
         toks = dis["case"].split(" ")
         try:
-            d = _tx_from_case(toks[-4:])
+            d = _tx_from_case(toks[2:6]) if toks[0] == "history" else _tx_from_case(toks[-4:])
         except Exception:
             continue
+        if serialisable(d) and all(len(i[0]) == 32 for i in d[1]):
+            tot = len(spec_ser(d))
+            for ms in (tot, tot + 5):
+                for m in g_mutators(rng, d)[:10]:
+                    ops = [m]
+                    cands.append(PropCase("check_history", _hj(d, [], ops, "LIM", 2100000000000000, ms),
+                                          (lambda d=d, ops=ops, ms=ms: chk_check_history(d, [], ops, "LIM", 2100000000000000, ms))))
         for coin in ("BTC", "GRS"):
             cands.append(PropCase("check", _pj(d, [], coin), (lambda d=d, coin=coin: chk_check(d, [], coin))))
         if toks[0] == "check_limits":
